@@ -74,6 +74,7 @@ impl Check for C05 {
         cfg.max_size = MaxSz::Limit(*rng.pick(&[0usize, 1, 8, 64, 1000, 70_000, 1 << 20]));
         cfg.eof_end = !rng.chance(1, 4);
         cfg.capacity = io::gen_capacity(&mut rng, gi.bytes.len());
+        crate::harness::gen_cfg_history(&mut rng, &mut cfg);
         let n = gi.bytes.len();
         let mut script = io::gen_rscript(&mut rng, n, &[]);
         // source faults, biased to land early (inside header lookahead / payload refill / recovery scan)
